@@ -35,13 +35,13 @@ def helper(v):
 HOST_GLOBALS = {'G': 5, 'GFLAG': True, 'GOFF': False, 'GLIST': [1, 2, 3], 'boom': boom, 'boom_base': boom_base,
                 'helper': helper, '__name__': 'c10_host'}
 
-BOOL_CONDS = ['x > 3', 'flag', 'not flag', 'x % 2 == 0', 'flag and x > 1', 'G > x', 'GFLAG', 'GOFF', 'True', 'False',
+BOOL_CONDS = ['y', 't', 'not y', 'y and t', 'G > 50', 'G == x', 'x > 3', 'flag', 'not flag', 'x % 2 == 0', 'flag and x > 1', 'G > x', 'GFLAG', 'GOFF', 'True', 'False',
               'isinstance(x, int)', "'a' in s", 'x in GLIST', 'helper(x) > 4', 'len(s) > 2', 'x == G']
 BLANK_CONDS = ['', '  ']
-FAIL_CONDS = ['1/0', 'undefined_name', 'd[1]', "boom('true')", "boom('yes')", "boom('1')", "boom('t')", 'boom_base()',
+FAIL_CONDS = ['yes', 'true', 'Y', '1/0', 'undefined_name', 'd[1]', "boom('true')", "boom('yes')", "boom('1')", "boom('t')", 'boom_base()',
               'x.nope', 'x >', ')(', "d['y']", "boom('false')", 'int(s)']
 AGENT_ONLY = ['uuid', 'deep', 'time_ns', 'FrameCollector', 'LocationAction', 'TriggerContext', 'VariableCacheProvider']
-WATCHES = ['x', 'G', 'GLIST', 'helper(x)', 'len(s)', 'x + G', 's', 'flag', '1/0', 'nope', 'x +', 'd[1]',
+WATCHES = ['x', 'G', 'y', 'helper', 'G + 1', 'GLIST', 'helper(x)', 'len(s)', 'x + G', 's', 'flag', '1/0', 'nope', 'x +', 'd[1]',
            'boom_base()', "boom('w')", 'x.nope'] + AGENT_ONLY
 
 
@@ -67,7 +67,7 @@ class C10(Prop):
     quick_examples = 1200
     thorough_examples = 6000
     floors = {'reject_then_accept': 0.1, 'failing_condition': 0.08, 'host_global_watch': 0.1,
-              'agent_only_watch': 0.08}
+              'agent_only_watch': 0.08, 'local_shadows_global': 0.2}
 
     def strategy(self, tier):
         atom = st.one_of(st.sampled_from(['x', 'G', 'len(s)', 'helper(x)', 'len(d)', 'GLIST[0]']),
@@ -78,7 +78,8 @@ class C10(Prop):
             lambda t: '(%s) %s (%s)' % t), boolean.map(lambda b: 'not (%s)' % b))
         cond = st.one_of(grammar, grammar, st.sampled_from(BOOL_CONDS), st.sampled_from(FAIL_CONDS),
                          st.sampled_from(BLANK_CONDS), st.none())
-        hit = st.fixed_dictionaries({'x': st.integers(0, 8), 'flag': st.booleans(),
+        hit = st.fixed_dictionaries({'x': st.integers(0, 8), 'flag': st.booleans(), 'y': st.booleans(),
+                                     't': st.booleans(), 'shadow': st.sampled_from([None, None, 99, 3]),
                                      's': st.sampled_from(['', 'abc', 'zzzz', '12']),
                                      'd': st.sampled_from([0, 1]), 'gap_ms': st.sampled_from([0, 1, 10, 1000])})
         return st.fixed_dictionaries({
@@ -127,7 +128,11 @@ class C10(Prop):
         for hi, hit in enumerate(recipe['hits']):
             lab.CLOCK.advance_ms(hit['gap_ms'])
             lab.CLOCK.advance_ns(1)
-            local_values = {'x': hit['x'], 'flag': hit['flag'], 's': hit['s'], 'd': {1: 'one'} if hit['d'] else {}}
+            local_values = {'x': hit['x'], 'flag': hit['flag'], 's': hit['s'], 'd': {1: 'one'} if hit['d'] else {},
+                            'y': hit.get('y', False), 't': hit.get('t', True)}
+            if hit.get('shadow') is not None:
+                local_values['G'] = hit['shadow']          # a local that shadows a module-level name
+                out.cls('local_shadows_global')
             gen = lab.frame_at(PATH, LINE, 'target', local_values, globs=HOST_GLOBALS)
             frame = gen.gi_frame
             # ---- oracle ------------------------------------------------------------------------------
@@ -207,11 +212,12 @@ class C10(Prop):
                     out.violate('snapshot variables damaged next to watches')
             if expect and kind == 'log':
                 msg = logger.calls[-1][0]
-                if msg != '[deep] x=%d g=5' % hit['x']:
+                if msg != '[deep] x=%d g=%s' % (hit['x'], local_values.get('G', 5)):
                     out.violate('log field naming a host global not rendered', {'msg': msg})
             if expect and kind == 'metric':
                 c = mproc.calls[-1]
-                if c[6] != float(hit['x'] + 5) or c[2].get('lg') != '5':
+                gv = local_values.get('G', 5)
+                if c[6] != float(hit['x'] + gv) or c[2].get('lg') != str(gv):
                     out.violate('metric expression / label over a host global wrong', {'value': c[6], 'labels': c[2]})
             gen.close()
         lab.reset_world()
